@@ -321,6 +321,28 @@ class Parser:
             return comment
         return None
 
+    def _comment_belongs_to_outer_level(self, current_line_indent: int, child_indent: int) -> bool:
+        """Decide whether the COMMENT at the cursor belongs to a node of an outer level.
+
+        A comment line indented less than the children of the block being parsed is the leading
+        comment of the next node of an enclosing level (or a document trailing comment) when the
+        next non-comment line is also indented less than the children.  A dedented comment that
+        is followed by a further child keeps its lenient treatment (leading comment of that child).
+        """
+        if current_line_indent >= child_indent:
+            return False
+        line_indent = current_line_indent
+        for token in self.tokens[self.pos :]:
+            if token.type == TokenType.COMMENT:
+                continue
+            if token.type == TokenType.NEWLINE:
+                line_indent = 0
+            elif token.type == TokenType.INDENT:
+                line_indent = token.value
+            else:
+                return bool(line_indent < child_indent)
+        return True
+
     def _peek_past_brackets_at(self, bracket_start: int) -> TokenType:
         """Return the token type immediately after the bracket group starting at bracket_start.
 
@@ -890,6 +912,8 @@ class Parser:
 
                 # Issue #182: Collect comments as pending for next child
                 if self.current().type == TokenType.COMMENT:
+                    if self._comment_belongs_to_outer_level(current_line_indent, child_indent):
+                        break  # leading comment of the next node of an outer level
                     pending_comments.append(self.current().value)
                     self.advance()
                     continue
@@ -1120,6 +1144,8 @@ class Parser:
 
                     # Issue #182: Collect comments as pending for next child
                     if self.current().type == TokenType.COMMENT:
+                        if self._comment_belongs_to_outer_level(current_line_indent, child_indent):
+                            break  # leading comment of the next node of an outer level
                         pending_comments.append(self.current().value)
                         self.advance()
                         continue
